@@ -198,9 +198,57 @@ def big_shots_case(ctx, rng):
     return True
 
 
+def wide_postselect_shots_case(ctx, rng):
+    """finite shots + post-selection on mid-circuit outcomes on a register with many classical bits (number of MEASURE
+    gates + width between 7 and 14): X / CNOT programs with at most two coin flips, so that the post-selected state is
+    a computational-basis state and every Z-type expectation value is exact whatever the number of shots"""
+    from tangelo.linq import get_backend
+    from tangelo.toolboxes.operators import QubitOperator
+    import itertools
+    n = rng.randint(3, 10)
+    m = rng.randint(1, max(1, 14 - n)) if n >= 6 else rng.randint(max(1, 7 - n), 14 - n)
+    coins = min(rng.choice([0, 1, 1, 2]), m, n - 1)
+    ins, evaluate = vlib.classical_meas_prog(rng, n, m, coins)
+    circ = vlib.classical_prog_to_circuit(ins, n)
+    n_meas = sum(1 for g in ins if g[0] == "MEASURE")
+    allowed = {}
+    for cb in itertools.product([0, 1], repeat=coins):
+        mid, fin = evaluate(list(cb))
+        allowed[mid] = fin
+    desired = rng.choice(sorted(allowed))
+    fin = allowed[desired]
+    op = QubitOperator((), 0.5)
+    exact = 0.5
+    for _ in range(3):
+        w = tuple((q, "Z") for q in range(n) if rng.random() < 0.4) or ((rng.randrange(n), "Z"),)
+        c = rng.choice([0.5, -1.25, 2.0])
+        op += QubitOperator(w, c)
+        exact += c * (-1) ** sum(int(fin[q]) for q, _ in w)
+    shots = rng.randint(60, 300)
+    case = {"kind": "wide_postselect_shots", "n": n, "ins": [list(g) for g in ins], "desired": desired, "n_shots": shots,
+            "terms": [[list(map(list, w)), c] for w, c in op.terms.items()]}
+    ctx.case(case, nontrivial=True, sample=len(ins) <= 8)
+    ctx.count(f"wide_postselect_shots:bits={'<=10' if n + n_meas <= 10 else '>10'}")
+    np.random.seed(rng.randint(0, 2 ** 31))
+    sim = get_backend("cirq", n_shots=shots)
+    try:
+        est = float(np.real(sim.get_expectation_value(op, circ, desired_meas_result=desired)))
+    except Exception as e:
+        ctx.violation(f"{shots} shots, post-selection on {desired!r} ({n} qubits, {n_meas} MEASUREs): get_expectation_value raises {vlib.err_name(e)}: {str(e)[:120]}", case)
+        return False
+    if abs(est - exact) > 1e-9:
+        ctx.violation(f"{shots} shots, post-selection on {desired!r} ({n} qubits, {n_meas} MEASUREs): the post-selected state is the basis state "
+                      f"|{fin}>, expectation value {est!r} instead of {exact!r}", case)
+        return False
+    return True
+
+
 def run(ctx):
     rng = ctx.rng
     from props.C01 import rand_init
+    for i in range(ctx.n(20, 300)):
+        if not wide_postselect_shots_case(ctx, rng):
+            return
     for i in range(ctx.n(140, 4000)):
         n = rng.randint(1, 4)
         specs = vlib.rand_gate_list(rng, n, rng.randint(0, 8), vlib.ALL_UNITARY, corr=0.1, max_controls=2)
